@@ -164,3 +164,34 @@ def header_shapes(tier):
                             yield ('shape t=%d size=%d' % (t, size),
                                    bytes([t]) + ch +
                                    struct.pack('>I', size) + pl + end + tr)
+
+
+def nested_short(max_depth):
+    """Grammar-directed fault: at every nesting level a container declares
+    fewer bytes than its content needs, so that the content runs past the
+    declared end ("child overruns parent").  Yields (label, table body) for
+    depth 1..max_depth and three container mixes; a decoder that resumes at
+    the declared end re-reads what the child already read, which doubles the
+    work per level."""
+    for mix in ('FF', 'FA', 'AF'):
+        for depth in range(1, max_depth + 1):
+            if mix == 'FF':
+                c = b'\x00V'
+                for _ in range(depth):
+                    c = (b'\x00F' + struct.pack('>I', 6) + b'\x00F' +
+                         struct.pack('>I', len(c)) + c)
+            elif mix == 'FA':
+                # short table whose only entry is an array running past it
+                c = b'V'
+                for _ in range(depth):
+                    inner = b'\x00A' + struct.pack('>I', len(c)) + c
+                    c = b'F' + struct.pack('>I', 6) + inner
+                c = b'\x00' + c
+            else:
+                # array element = short table holding a table that overruns
+                c = b'\x00V'
+                for _ in range(depth):
+                    t = (b'F' + struct.pack('>I', 6) + b'\x00F' +
+                         struct.pack('>I', len(c)) + c)
+                    c = b'\x00A' + struct.pack('>I', len(t)) + t
+            yield 'nested-short %s depth %d' % (mix, depth), c
